@@ -1,4 +1,4 @@
-#!/usr/bin/env python3
+#!/usr/bin/env python3-vt
 """dev helper: ./dev.py <registry-key-or-harness-name> [timeout]  -- runs one harness in a persistent scratch copy"""
 import sys, os, re, glob, shutil, time
 sys.path.insert(0, '/verif')
